@@ -184,6 +184,46 @@ func selfTest(t *testing.T) {
 		}
 	}
 
+	// retry after a refusal: silent when the retries fail or deliver the blob, loud when the
+	// victim's range is served with the bytes of its (equal-size) predecessor
+	{
+		p := &Pipe{Consumer: cReadSeeker, Fixed: 64, Victim: 0, N: 1,
+			Chunks: []ChunkSpec{{Kind: "rand", Seed: 1}, {Kind: "rand", Seed: 2}, {Kind: "zero"}, {Kind: "zero"}}}
+		pd := buildPipe(p)
+		if pd.victim != 1 || len(pd.blob) != 4*64 || bytes.Equal(pd.items[2].data, pd.items[3].data) {
+			fail("fixed-size layout: victim %d, %d bytes", pd.victim, len(pd.blob))
+		}
+		v := pd.idx.Chunks[pd.victim]
+		refuse := func(b []byte, off int64) (int, error) {
+			n := 0
+			for n < len(b) && uint64(off)+uint64(n) < v.Start {
+				b[n] = pd.blob[off+int64(n)]
+				n++
+			}
+			return n, desync.ChunkInvalid{ID: v.ID}
+		}
+		honest := func(b []byte, off int64) (int, error) { return copy(b, pd.blob[off:]), nil }
+		stale := func(b []byte, off int64) (int, error) {
+			for i := range b {
+				o := off + int64(i)
+				if uint64(o) >= v.Start && uint64(o) < v.Start+v.Size {
+					o -= int64(v.Size) // the predecessor's bytes
+				}
+				b[i] = pd.blob[o]
+			}
+			return len(b), nil
+		}
+		if d := pd.retryAfterRefusal(refuse); d != "" || !pd.retried || !pd.retriedSameSize {
+			fail("retryAfterRefusal on a refusing reader: %q retried=%v same=%v", d, pd.retried, pd.retriedSameSize)
+		}
+		if d := pd.retryAfterRefusal(honest); d != "" {
+			fail("retryAfterRefusal on an honest reader: %q", d)
+		}
+		if d := pd.retryAfterRefusal(stale); d == "" {
+			fail("retryAfterRefusal did not notice the predecessor's bytes served for the victim")
+		}
+	}
+
 	// repair shapes
 	for shape, want := range map[string]bool{
 		"repairable>cache-l": true, "wdedup>repairable>swapw>cache-l>dedup": true, "repairable": false,
